@@ -5,20 +5,24 @@
     [mspq_phase_linearizable_partial] proves it for single-thread programs (any sequence of operations, equal
     priorities included), through LV.Proofs.MsPqSeq and [Lin.lp_valid_linearizable].
 
-    What is missing for the full statement (decided per history on the implementation by the verified
-    [lincheck], see checks/C11.py):
-      (a) after a phase of CONCURRENT pushes has quiesced the heap is well ordered.  This needs the tag invariant
-          of Hunt, Michael, Parthasarathy, Scott: a cell tagged with a thread id is only moved by its owner or by
-          a concurrent pop (which re-tags it Available), heap order can be violated only between a cell tagged
-          with a thread id and its parent, and heapify_after_push follows its item through those moves.  The
-          invariant of MsPqInv deliberately ignores node locks and tag VALUES (conservation does not need them).
-      (b) a phase of CONCURRENT pops is linearizable in the order in which the pops acquire the size lock (the
-          top lock is taken before the size lock is released and the locks are handed over parent-to-child, so a
-          later pop never overtakes an earlier one): an invariant "heap order holds except below the locked
-          frontier of each pop in progress" over the node locks.
-    Neither is attempted here.  What IS proved for every schedule: conservation and the capacity clause
-    (MsPqProofs), which already imply for a history without push/pop overlap that the multiset of items returned
-    by the pops of a phase is drawn from what the earlier phases left. *)
+    Status of the full statement (decided per history on the implementation by the verified [lincheck], see
+    checks/C11.py):
+      (a) PROVED (LV.Proofs.MsPqPush, [mspq_push_phase_heap]): after a phase of CONCURRENT pushes -- any schedule,
+          no pop invoked so far -- has quiesced, the heap is a max-heap holding exactly the pushed items.  The
+          invariant is the tag invariant of Hunt, Michael, Parthasarathy, Scott: a cell tagged with a thread id is
+          the cell that thread is bubbling; an Available cell is not larger than any of its ancestors.
+      (b) NOT proved: a phase of CONCURRENT pops is linearizable in the order in which the pops acquire the size
+          lock.  The invariant needed: node-lock ownership (only the holder of a node lock changes the cell; the
+          invariant of MsPqInv ignores node locks), a set of "dirty" cells = the pParent cells of the pops in
+          heapify_after_pop; every cell in use is not larger than its nearest non-dirty ancestor; a pop that has
+          taken the size lock and waits for the top lock has as its specification result the maximum of the cells;
+          when it obtains the top lock the top is not dirty, hence is that maximum.  Linearization point = dec()
+          under the size lock (ghost events would mark it in the trace, as "g_full" does for a failed push).
+      (c) NOT proved: the composition -- histories alternating quiescent push-only and pop-only phases are
+          [lp_valid] with the LPs at the size-lock acquisitions; it needs (b), and (a) restated from an arbitrary
+          max-heap instead of the empty one (the invariant of MsPqPush is already stated that way: [B_ok], [W_ok]
+          only require that no pop is in progress; the hypothesis "no pop invoked so far" would become "no pop in
+          progress and the last pop phase left a max-heap", which is what (b) has to deliver). *)
 From Coq Require Import ZArith List String Bool Lia PeanoNat Permutation.
 From LV Require Import Base.Conc Base.Events Base.Lin Spec.Specs Model.MsPq
   Proofs.LinProofs Proofs.MsPqBrc Proofs.MsPqInv Proofs.MsPqHeap Proofs.MsPqSeq.
